@@ -496,6 +496,11 @@ package table
 //@   loop 5 step keepNum >= 1 && header(keepNum) - keepNum == segASLen(param)
 //@   at-call param.GetAS()[:keepNum] requires keepNum >= 1 && segType(param) == bgp.BGP_ASPATH_ATTR_TYPE_SEQ && keepNum < segLen(param)
 //@   at-call bgp.NewPathAttributeAsPath(newIntfParams) requires as4Len <= asLen
+// "never produces an empty or over-long segment", for the segments the merge loop builds: the overflow of a merged
+// AS_SEQUENCE has at least one member and its first part exactly 255; a plain merge has at most 255
+//@   at-call ^bgp.NewAs4PathParam(paramType, paramAS[255-len(lastParamAS):]) requires len(arg1) >= 1
+//@   at-call ^bgp.NewAs4PathParam(paramType, append(lastParamAS, paramAS[:255 requires len(arg1) == 255
+//@   at-call ^bgp.NewAs4PathParam(paramType, append(lastParamAS, paramAS...)) requires len(arg1) <= 255
 
 // The form sent to a 2-octet-AS peer (RFC 6793 4.2.2): every segment keeps its type and member count, a member
 // above 65535 becomes AS_TRANS (and only then), an AS4_PATH is added exactly when some member was replaced, and
@@ -505,6 +510,8 @@ package table
 //@   loop 1 invariant len(as2Params) == __iter + 1 && __iter + 1 <= len(asAttr.Value)
 //@   loop 1 step (segType == bgp.BGP_ASPATH_ATTR_TYPE_CONFED_SEQ || segType == bgp.BGP_ASPATH_ATTR_TYPE_CONFED_SET) ==> len(as4Params) == header(len(as4Params))
 //@   loop 1 step header(mkAs4) ==> mkAs4
+// ... and every other segment is (AS4_PATH is the whole non-confederation part of the path, RFC 6793 4.2.2)
+//@   loop 1 step segType != bgp.BGP_ASPATH_ATTR_TYPE_CONFED_SEQ && segType != bgp.BGP_ASPATH_ATTR_TYPE_CONFED_SET && typeOf(param) == (*bgp.As4PathParam) ==> len(as4Params) == header(len(as4Params)) + 1 && as4Params[len(as4Params)-1] == param.(*bgp.As4PathParam)
 //@   loop 2 invariant len(as2Path) == __iter + 1 && __iter + 1 <= len(asList)
 //@   loop 2 invariant pre(mkAs4) ==> mkAs4
 //@   loop 2 step len(as2Path) == header(len(as2Path)) + 1 && int(as2Path[len(as2Path)-1]) == (as > 65535 ? 23456 : int(as))
